@@ -188,6 +188,16 @@ fn at<'a, K, V>(items: &'a Vec<(K, V)>, pos: usize, rev: bool) -> &'a (K, V) {
         &items[pos]
     }
 }
+impl<K: Eq + Borrow<Q>, Q: ?Sized + Eq, V, S> core::ops::Index<&Q> for HashMap<K, V, S> {
+    type Output = V;
+    fn index(&self, k: &Q) -> &V {
+        match self.get(k) {
+            Some(v) => v,
+            None => panic!("HashMap index: key not found"),
+        }
+    }
+}
+
 pub struct Iter<'a, K, V> {
     items: &'a Vec<(K, V)>,
     pos: usize,
